@@ -44,6 +44,8 @@ func main() {
 			usage()
 		}
 		os.Exit(replay(os.Args[2], os.Args[3]))
+	case "probe":
+		os.Exit(probe(os.Args[2:]))
 	case "list":
 		for _, id := range propertyIDs() {
 			fmt.Println(id)
@@ -424,9 +426,8 @@ func (rc *runCtx) runUnit(u Unit, w int, extraEnv map[string]string) unitResult 
 // directory and rapid + verif/stats are added through an alternative go.mod.
 func runInproc(rc *runCtx, u Unit, env, testArgs []string, workDir string) h.Result {
 	modfile, overlay := prepareInproc(rc.work, u.Pkg)
-	args := []string{"go", "test", "-modfile=" + modfile, "-overlay=" + overlay, "-vet=off"}
+	args := []string{"go", "test", "-modfile=" + modfile, "-overlay=" + overlay, "-vet=off", u.Pkg}
 	args = append(args, testArgs...)
-	args = append(args, u.Pkg)
 	genv := h.CleanEnv(env...)
 	genv = h.MergeEnv(genv, []string{"GOFLAGS=-mod=mod", "CGO_ENABLED=0"})
 	return h.Run(h.Cmd{Dir: h.RepoDir, Env: genv, Args: args, Timeout: 12 * time.Hour})
